@@ -225,7 +225,8 @@ Theorem doCall_checked ms a kw a' kw' :
   doCall ms a kw = CInvoke a' kw' -> a' = a /\ kw' = kw /\ checkAllArgs ms a kw = Ok tt.
 Proof.
   unfold doCall. change doCall_shape with CheckedBeforeCall. cbv iota.
-  destruct (checkAllArgs ms a kw) as [[]|t]; intros E; inversion E; subst. auto.
+  destruct (checkAllArgs ms a kw) as [[]|t]; intros E; [inversion E; subst; auto|].
+  destruct (String.eqb t "Violation"); discriminate.
 Qed.
 
 (* ... whatever token stream (pos, kws: arbitrary wire trees, including forged references) produced the arguments *)
@@ -268,6 +269,18 @@ Proof.
   - intros E. destruct (IH E). split; [right; assumption|assumption].
 Qed.
 
+(* the per-argument loop of checkAllArgs succeeds exactly when every bound name is DECLARED and its value passes the
+   declared constraint -- whatever the two unknown-argument flags say: an undeclared name never gets through (under a
+   flag it ends in None.checkObject, an AttributeError) *)
+Lemma check_each_spec ms l : check_each ms l = Ok tt <-> forallb (arg_ok ms) l = true.
+Proof.
+  induction l as [|[n v] l IH]; cbn [check_each forallb]; [tauto|].
+  unfold getKeywordArgConstraint, arg_ok. cbn [memZ existsb fst snd].
+  destruct (lookup n (ms_args ms)) as [sp|].
+  - destruct (checkObject (a_ctr sp) v); cbn [andb]; [exact IH|split; discriminate].
+  - cbn [andb]. destruct (ms_ignore ms); [split; discriminate|]. destruct (ms_accept ms); split; discriminate.
+Qed.
+
 (* C02, sentence 1 (argument list): checkAllArgs succeeds exactly when there are no more positional values than declared
    names, no name is bound twice, every bound name is declared and its value satisfies the declared constraint,
    and every argument not declared Optional is bound *)
@@ -297,11 +310,11 @@ Proof.
     { unfold required_ok. rewrite forallb_forall. split.
       - intros H sp Hin O. specialize (H sp Hin). rewrite O in H. cbn [orb] in H. apply memZ_In. assumption.
       - intros H sp Hin. destruct (a_opt sp) eqn:O; [reflexivity|]. cbn [orb]. apply memZ_In. apply H; assumption. }
-    destruct (forallb (arg_ok ms) _) eqn:E1; cbn [negb].
-    + destruct (required_ok ms _) eqn:E2; cbn [negb].
-      * split; [intros _|reflexivity]. split; [lia|]. split; [assumption|]. split; [apply A; reflexivity|apply R; reflexivity].
+    destruct (check_each ms (combine (names ms) a ++ kw)) as [[]|e] eqn:E1.
+    + apply check_each_spec in E1. destruct (required_ok ms _) eqn:E2; cbn [negb].
+      * split; [intros _|reflexivity]. split; [lia|]. split; [assumption|]. split; [apply A; exact E1|apply R; reflexivity].
       * split; [discriminate|]. intros (_ & _ & _ & A4). apply R in A4. discriminate.
-    + split; [discriminate|]. intros (_ & _ & A3 & _). apply A in A3. discriminate.
+    + split; [discriminate|]. intros (_ & _ & A3 & _). apply A in A3. apply check_each_spec in A3. congruence.
   - split; [discriminate|]. intros (_ & F & _).
     assert (E' : add_kwargs (combine (names ms) a) kw = Some (combine (names ms) a ++ kw)) by (apply add_kwargs_spec; auto).
     congruence.
@@ -321,7 +334,7 @@ Proof.
   intros n v Hin. destruct (A3 n v Hin) as (sp & L & S). apply lookup_In in L as [L1 L2]. exists sp. auto.
 Qed.
 
-Definition ms1 (c : ctr) : mschema := {| ms_args := [{| a_name := 1; a_ctr := c; a_opt := false |}]; ms_resp := None |}.
+Definition ms1 (c : ctr) : mschema := mkms [{| a_name := 1; a_ctr := c; a_opt := false |}] None.
 
 Example C02_args_nonvacuous :
   recv_call (ms1 (CList (CInt (Some 1024)) (Some 2) 0)) [slice [] (OList [OInt 5; OInt (2 ^ 40)])] [] =
@@ -850,25 +863,405 @@ Corollary c12_main : forall c o,
   recvw (Some c) (slice voc o) = RDeliver o.
 Proof. intros. apply c12_ser; try assumption. apply ser_slice. assumption. Qed.
 
-(* the same at the level of a whole call of a one-argument method: what callRemote's check lets through is delivered *)
-Theorem c12_call1 : forall c o,
+(* ---- the same at the level of a whole call, for EVERY method schema (any number of arguments, Optional ones, both
+   unknown-argument flags) and every mix of positional and keyword arguments: what callRemote's check lets through is
+   delivered.  ms_wf: argument names are distinct (a python function cannot repeat a parameter name; a dict of keyword
+   arguments cannot repeat a key) and every declared constraint is well-formed. *)
+Definition ms_wf (ms : mschema) : Prop := NoDup (names ms) /\ forall sp, In sp (ms_args ms) -> wf (a_ctr sp) = true.
+
+Definition args_guarded (ms : mschema) (a : list obj) (kw : list (Z * obj)) : Prop :=
+  (forall i sp v, nth_error (ms_args ms) i = Some sp -> nth_error a i = Some v -> owf v = true /\ c12_guard (a_ctr sp) v = true) /\
+  (forall n v sp, In (n, v) kw -> lookup n (ms_args ms) = Some sp -> owf v = true /\ c12_guard (a_ctr sp) v = true).
+
+Lemma map_fst_combine {A B} : forall (l : list A) (a : list B),
+  (List.length a <= List.length l)%nat -> map fst (combine l a) = firstn (List.length a) l.
+Proof.
+  induction l as [|y l IH]; intros [|x a] H; cbn [combine map firstn List.length fst] in *; try reflexivity; try lia.
+  f_equal. apply IH. lia.
+Qed.
+
+Lemma lookup_nth : forall l i sp, NoDup (map a_name l) -> nth_error l i = Some sp -> lookup (a_name sp) l = Some sp.
+Proof.
+  induction l as [|b l IH]; intros i sp ND E; [destruct i; discriminate|].
+  cbn [map] in ND. inversion ND as [|? ? NI ND']; subst. destruct i as [|i]; cbn [nth_error lookup] in *.
+  - inversion E; subst. rewrite Z.eqb_refl. reflexivity.
+  - destruct (Z.eqb_spec (a_name sp) (a_name b)) as [Q|Q].
+    + exfalso. apply NI. rewrite <- Q. apply in_map. eapply nth_error_In. exact E.
+    + eapply IH; eassumption.
+Qed.
+
+Lemma combine_nth_In {A B} : forall (l : list A) (a : list B) i x y,
+  nth_error l i = Some x -> nth_error a i = Some y -> In (x, y) (combine l a).
+Proof.
+  induction l as [|x0 l IH]; intros [|y0 a] [|i] x y E1 E2; cbn [nth_error combine] in *; try discriminate.
+  - inversion E1; inversion E2; subst. left. reflexivity.
+  - right. eapply IH; eassumption.
+Qed.
+
+Lemma recv_pos_honest ms : (forall sp, In sp (ms_args ms) -> wf (a_ctr sp) = true) -> forall a i,
+  (i + List.length a <= List.length (ms_args ms))%nat ->
+  (forall j sp v, nth_error (ms_args ms) (i + j) = Some sp -> nth_error a j = Some v ->
+     owf v = true /\ c12_guard (a_ctr sp) v = true /\ checkObject (a_ctr sp) v = true) ->
+  recv_pos ms (map (slice voc) a) i = KOk a.
+Proof.
+  intros W. induction a as [|x a IH]; intros i L H; [reflexivity|].
+  cbn [map recv_pos]. change posarg_full_cmp with SGe. cbn [scmp_eval List.length] in *.
+  destruct (Z.geb_spec (Z.of_nat i) (zlen (ms_args ms))) as [G|G]; [unfold zlen in G; lia|].
+  destruct (nth_error (ms_args ms) i) as [sp|] eqn:N; [|apply nth_error_None in N; lia].
+  destruct (H 0%nat sp x) as (O1 & O2 & O3); [rewrite Nat.add_0_r; exact N|reflexivity|].
+  cbn [option_map]. rewrite (c12_main (a_ctr sp) x (W sp (nth_error_In _ _ N)) O1 O2 O3).
+  rewrite IH; [reflexivity|lia|]. intros j sp' v E1 E2. apply (H (S j)); [rewrite Nat.add_succ_r; exact E1|exact E2].
+Qed.
+
+Lemma recv_kw_honest ms : forall kw prev,
+  kw_fresh prev (map fst kw) ->
+  (forall n v, In (n, v) kw -> exists sp, lookup n (ms_args ms) = Some sp /\ wf (a_ctr sp) = true /\ owf v = true /\
+                                          c12_guard (a_ctr sp) v = true /\ checkObject (a_ctr sp) v = true) ->
+  recv_kw ms prev (map (fun nv => (fst nv, slice voc (snd nv))) kw) = KwOk kw.
+Proof.
+  induction kw as [|[n v] kw IH]; intros prev F H; [reflexivity|].
+  cbn [map fst snd recv_kw kw_fresh] in *. destruct F as [F1 F2].
+  destruct (H n v (or_introl eq_refl)) as (sp & L & W & O1 & O2 & O3).
+  unfold getKeywordArgConstraint. destruct (memZ n prev) eqn:M; [apply memZ_In in M; contradiction|]. rewrite L.
+  change au_asserts_accept with true. cbn [negb andb]. rewrite (c12_main (a_ctr sp) v W O1 O2 O3).
+  rewrite IH; [reflexivity|exact F2|]. intros n' v' Hin. apply H. right. exact Hin.
+Qed.
+
+Theorem c12_call : forall ms a kw, ms_wf ms -> args_guarded ms a kw ->
+  forall p k, send_call voc ms a kw = Some (p, k) -> recv_call ms p k = CInvoke a kw.
+Proof.
+  intros ms a kw [ND W] [G1 G2] p k S. unfold send_call in S.
+  destruct (checkAllArgs ms a kw) as [[]|t] eqn:E; [|discriminate]. inversion S; subst p k. clear S.
+  pose proof E as E0. apply checkAllArgs_spec in E as (A1 & A2 & A3 & A4).
+  assert (LE : (List.length a <= List.length (ms_args ms))%nat) by (unfold zlen in A1; lia).
+  unfold recv_call. rewrite (recv_pos_honest ms W a 0%nat).
+  - rewrite map_length. rewrite <- (map_fst_combine (names ms) a) by (unfold names; rewrite map_length; exact LE).
+    rewrite recv_kw_honest.
+    + unfold doCall. change doCall_shape with CheckedBeforeCall. cbv iota. rewrite E0. reflexivity.
+    + exact A2.
+    + intros n v Hin. destruct (A3 n v) as (sp & L & Sat); [apply in_or_app; right; exact Hin|].
+      exists sp. split; [exact L|]. apply lookup_In in L as HL. destruct HL as [HL _].
+      destruct (G2 n v sp Hin L) as [O1 O2]. split; [apply W; exact HL|]. split; [exact O1|]. split; [exact O2|].
+      apply checkObject_sound. exact Sat.
+  - cbn [Nat.add]. exact LE.
+  - cbn [Nat.add]. intros j sp v E1 E2. destruct (G1 j sp v E1 E2) as [O1 O2]. split; [exact O1|]. split; [exact O2|].
+    assert (Hin : In (a_name sp, v) (combine (names ms) a ++ kw)).
+    { apply in_or_app. left. eapply combine_nth_In; [|exact E2]. unfold names. rewrite nth_error_map, E1. reflexivity. }
+    destruct (A3 _ _ Hin) as (sp' & L & Sat). rewrite (lookup_nth _ _ _ ND E1) in L. inversion L; subst sp'.
+    apply checkObject_sound. exact Sat.
+Qed.
+
+(* the one-argument instance *)
+Corollary c12_call1 : forall c o,
   wf c = true -> owf o = true -> c12_guard c o = true ->
   forall p k, send_call voc (ms1 c) [o] [] = Some (p, k) -> recv_call (ms1 c) p k = CInvoke [o] [].
 Proof.
-  intros c o W OW G p k S. unfold send_call in S.
-  destruct (checkAllArgs (ms1 c) [o] []) as [[]|t] eqn:E; [|discriminate]. inversion S; subst p k. clear S.
-  assert (CO : checkObject c o = true).
-  { apply checkAllArgs_spec in E as (_ & _ & A3 & _). destruct (A3 1 o) as (sp & L & Sat); [left; reflexivity|].
-    cbn in L. inversion L; subst sp. cbn in Sat. apply checkObject_sound. exact Sat. }
-  unfold recv_call. cbn [map recv_pos]. change posarg_full_cmp with SGe. cbn [scmp_eval ms1 ms_args nth_error option_map a_ctr].
-  change (Z.of_nat 0 >=? zlen [{| a_name := 1; a_ctr := c; a_opt := false |}]) with false. cbv iota.
-  rewrite (c12_main c o W OW G CO). cbn [recv_pos recv_kw List.length firstn]. unfold doCall. change doCall_shape with CheckedBeforeCall.
-  cbv iota. change {| ms_args := [{| a_name := 1; a_ctr := c; a_opt := false |}]; ms_resp := None |} with (ms1 c). rewrite E. reflexivity.
+  intros c o W OW G p k S. apply (c12_call (ms1 c) [o] []); [| |exact S].
+  - split; [cbn; constructor; [intros []|constructor]|]. intros sp [<-|[]]. exact W.
+  - split.
+    + intros [|i] sp v E1 E2; cbn in E1, E2; [inversion E1; inversion E2; subst; auto|destruct i; discriminate].
+    + intros n v sp [].
+Qed.
+
+(* "and symmetrically for results": a result that passes the check Broker._callFinished applies before sending
+   (methodSchema.checkResults(res, False)) is accepted by the caller's AnswerUnslicer under the same result constraint and
+   handed to the callRemote callback *)
+Theorem c12_result : forall ms c o w,
+  ms_resp ms = Some c -> wf c = true -> owf o = true -> c12_guard c o = true ->
+  send_answer voc ms o = Some w -> recv_answer (Some c) w = Callback o.
+Proof.
+  intros ms c o w R W OW G S. unfold send_answer in S. rewrite R in S. change callFinished_checks_results with true in S.
+  cbn [andb] in S. destruct (checkObject c o) eqn:CO; [|discriminate]. cbn [negb] in S. inversion S; subst w.
+  unfold recv_answer. rewrite (c12_main c o W OW G CO). rewrite CO. destruct answer_checks_object; reflexivity.
 Qed.
 
 End Sender.
 
+(* ------------------------------------------------------------------ C02: the ArgumentUnslicer machine over ARBITRARY children *)
+(* whatever children the peer puts into the `arguments` sequence -- any count token, any tokens where names or values
+   are expected, too few or too many of them: if the method body runs, checkAllArgs accepted exactly what it is given *)
+Lemma au_run_checked ms : forall items st a kw, au_run ms st items = CInvoke a kw -> checkAllArgs ms a kw = Ok tt.
+Proof.
+  induction items as [|w items IH]; intros st a kw E; cbn [au_run] in E.
+  - destruct (au_close st) as [[a' kw']|]; [|discriminate]. apply doCall_checked in E as (-> & -> & E). exact E.
+  - destruct (au_child ms st w) as [st'| |]; [eapply IH; exact E|discriminate|discriminate].
+Qed.
+
+Theorem recv_arguments_checked ms items a kw :
+  recv_arguments ms items = CInvoke a kw -> checkAllArgs ms a kw = Ok tt.
+Proof. apply au_run_checked. Qed.
+
+Theorem recv_arguments_main ms items a kw :
+  recv_arguments ms items = CInvoke a kw ->
+  (forall n v, In (n, v) (combine (names ms) a ++ kw) ->
+     exists sp, In sp (ms_args ms) /\ a_name sp = n /\ satisfies (a_ctr sp) v) /\
+  (forall sp, In sp (ms_args ms) -> a_opt sp = false -> In (a_name sp) (map fst (combine (names ms) a ++ kw))) /\
+  kw_fresh (map fst (combine (names ms) a)) (map fst kw) /\ zlen a <= zlen (ms_args ms).
+Proof.
+  intros E. apply recv_arguments_checked in E. apply checkAllArgs_spec in E as (A1 & A2 & A3 & A4).
+  split; [|split; [assumption|split; assumption]].
+  intros n v Hin. destruct (A3 n v Hin) as (sp & L & S). apply lookup_In in L as [L1 L2]. exists sp. auto.
+Qed.
+
+(* "no undeclared argument is present", also under __ignoreUnknown__ / __acceptUnknown__: neither flag ever lets an
+   undeclared name reach the method body (ms is ANY schema record, flags included) *)
+Theorem unknown_flags_never_accept ms items a kw :
+  recv_arguments ms items = CInvoke a kw -> forall n, In n (map fst kw) -> In n (names ms).
+Proof.
+  intros E n Hin. apply recv_arguments_main in E as (A1 & _). apply in_map_iff in Hin as ([n' v] & <- & Hin).
+  destruct (A1 n' v) as (sp & I1 & I2 & _); [apply in_or_app; right; exact Hin|]. cbn [fst]. rewrite <- I2. unfold names. apply in_map. exact I1.
+Qed.
+
+(* ---- streams whose count token equals the number of positional trees: the machine does what recv_call does.
+   So every theorem about recv_call (C12 included) is a theorem about such streams, and recv_call needs no assumption
+   about the count: it IS the machine on those streams. *)
+Definition aust (na : Z) (args : list obj) (kws : list (Z * obj)) (nm : option Z) (c : option ctr) : austate :=
+  {| au_numargs := Some na; au_args := args; au_kwargs := kws; au_argname := nm; au_ctr := c |}.
+
+Lemma au_run_cons ms st w r :
+  au_run ms st (w :: r) = match au_child ms st w with AuGo st' => au_run ms st' r | AuViol => CViol | AuAbort => CAbort end.
+Proof. reflexivity. Qed.
+
+Lemma au_stage_kw na args kws nm c : na <= zlen args ->
+  au_stage (aust na args kws nm c) = match nm with None => AuKwName | Some _ => AuKwValue end.
+Proof.
+  intros H. unfold au_stage, aust. cbn [au_numargs au_args au_argname]. change au_pos_cmp with SLt. cbn [scmp_eval].
+  destruct (Z.ltb_spec (zlen args) na); [lia|reflexivity].
+Qed.
+
+Lemma au_stage_pos na args kws nm c : zlen args < na -> au_stage (aust na args kws nm c) = AuPos.
+Proof.
+  intros H. unfold au_stage, aust. cbn [au_numargs au_args au_argname]. change au_pos_cmp with SLt. cbn [scmp_eval].
+  destruct (Z.ltb_spec (zlen args) na); [reflexivity|lia].
+Qed.
+
+Lemma au_child_kwname ms na args kws c vb sz bs : na <= zlen args ->
+  au_child ms (aust na args kws None c) (WStr vb sz bs) =
+  au_take (getKeywordArgConstraint ms (name_code bs) (firstn (Z.to_nat na) (names ms) ++ map fst kws))
+          (fun c' => aust na args kws (Some (name_code bs)) c').
+Proof. intros H. unfold au_child. rewrite (au_stage_kw _ _ _ _ _ H). reflexivity. Qed.
+
+Lemma au_child_kwvalue ms na args kws n c w : na <= zlen args ->
+  au_child ms (aust na args kws (Some n) c) w =
+  match recvw c w with RDeliver x => AuGo (aust na args (kws ++ [(n, x)]) None c) | RViol => AuViol | RAbort => AuAbort end.
+Proof. intros H. unfold au_child. rewrite (au_stage_kw _ _ _ _ _ H). reflexivity. Qed.
+
+Lemma au_child_pos ms na args c w : zlen args < na ->
+  au_child ms (aust na args [] None c) w =
+  match recvw c w with
+  | RViol => AuViol | RAbort => AuAbort
+  | RDeliver x =>
+      if zlen (args ++ [x]) <? na
+      then au_take (getPositionalArgConstraint ms (zlen (args ++ [x]))) (fun c' => aust na (args ++ [x]) [] None c')
+      else AuGo (aust na (args ++ [x]) [] None c)
+  end.
+Proof. intros H. unfold au_child. rewrite (au_stage_pos _ _ _ _ _ H). reflexivity. Qed.
+
+Lemma au_close_kw na args kws c : na <= zlen args -> au_close (aust na args kws None c) = Some (args, kws).
+Proof. intros H. unfold au_close. rewrite (au_stage_kw _ _ _ _ _ H). reflexivity. Qed.
+
+Lemma kwname_ctr_irrelevant ms items na args kws c c' :
+  na <= zlen args -> au_run ms (aust na args kws None c) items = au_run ms (aust na args kws None c') items.
+Proof.
+  intros H. destruct items as [|w items].
+  - cbn [au_run]. rewrite !au_close_kw by exact H. reflexivity.
+  - rewrite !au_run_cons. unfold au_child. rewrite !(au_stage_kw _ _ _ _ _ H). reflexivity.
+Qed.
+
+Lemma kw_phase ms : forall kwsb na args kws, na <= zlen args ->
+  au_run ms (aust na args kws None None) (enc_kws kwsb) =
+  match recv_kw ms (firstn (Z.to_nat na) (names ms) ++ map fst kws) (code_kws kwsb) with
+  | KwOk l => doCall ms args (kws ++ l) | KwViol => CViol | KwAbort => CAbort
+  end.
+Proof.
+  induction kwsb as [|[bs w] kwsb IH]; intros na args kws H.
+  - cbn [enc_kws flat_map code_kws map recv_kw au_run]. rewrite au_close_kw by exact H. rewrite app_nil_r. reflexivity.
+  - change (enc_kws ((bs, w) :: kwsb)) with (WStr false (zlen bs) bs :: w :: enc_kws kwsb).
+    change (code_kws ((bs, w) :: kwsb)) with ((name_code bs, w) :: code_kws kwsb).
+    rewrite au_run_cons, au_child_kwname by exact H. cbn [recv_kw].
+    destruct (getKeywordArgConstraint ms (name_code bs) (firstn (Z.to_nat na) (names ms) ++ map fst kws)) as [| |acc oc];
+      cbn [au_take]; try reflexivity.
+    destruct (au_asserts_accept && negb acc); [reflexivity|].
+    rewrite au_run_cons, au_child_kwvalue by exact H.
+    destruct (recvw oc w) as [x| |]; try reflexivity.
+    rewrite (kwname_ctr_irrelevant ms _ na args _ oc None H). rewrite IH by exact H.
+    rewrite map_app. cbn [map fst]. rewrite app_assoc.
+    destruct (recv_kw ms _ (code_kws kwsb)) as [l| |]; try reflexivity. rewrite <- app_assoc. reflexivity.
+Qed.
+
+Lemma pos_phase ms tail : forall pos done c na,
+  na = zlen done + zlen pos ->
+  (pos <> [] -> c = option_map a_ctr (nth_error (ms_args ms) (List.length done)) /\ (List.length done < List.length (ms_args ms))%nat) ->
+  au_run ms (aust na done [] None c) (pos ++ tail) =
+  match recv_pos ms pos (List.length done) with
+  | KOk l => au_run ms (aust na (done ++ l) [] None None) tail | KViol => CViol | KAbort => CAbort
+  end.
+Proof.
+  induction pos as [|w pos IH]; intros done c na N H.
+  - cbn [app recv_pos]. rewrite app_nil_r. apply kwname_ctr_irrelevant. unfold zlen in *. cbn [List.length] in N. lia.
+  - destruct H as [Hc Hlt]; [discriminate|]. rewrite zlen_cons in N. pose proof (zlen_nonneg pos) as P0.
+    cbn [app]. rewrite au_run_cons, au_child_pos by lia.
+    cbn [recv_pos]. change posarg_full_cmp with SGe. cbn [scmp_eval].
+    destruct (Z.geb_spec (Z.of_nat (List.length done)) (zlen (ms_args ms))) as [G|G]; [unfold zlen in G; lia|].
+    rewrite <- Hc. destruct (recvw c w) as [x| |]; try reflexivity.
+    assert (ZA : zlen (done ++ [x]) = zlen done + 1) by (unfold zlen; rewrite app_length; cbn [List.length]; lia).
+    assert (LA : List.length (done ++ [x]) = S (List.length done)) by (rewrite app_length; cbn [List.length]; lia).
+    destruct pos as [|w2 pos].
+    + (* the last positional value *)
+      cbn [recv_pos]. destruct (Z.ltb_spec (zlen (done ++ [x])) na) as [L2|L2]; [change (zlen (@nil wobj)) with 0 in N; lia|].
+      cbn [app]. apply kwname_ctr_irrelevant. lia.
+    + (* more to come *)
+      rewrite zlen_cons in N. pose proof (zlen_nonneg pos) as P1.
+      destruct (Z.ltb_spec (zlen (done ++ [x])) na) as [L2|L2]; [|lia].
+      unfold getPositionalArgConstraint. change posarg_full_cmp with SGe. cbn [scmp_eval].
+      assert (RP : recv_pos ms (w2 :: pos) (S (List.length done)) =
+                   if zlen (done ++ [x]) >=? zlen (ms_args ms) then KViol
+                   else match recvw (option_map a_ctr (nth_error (ms_args ms) (S (List.length done)))) w2 with
+                        | RDeliver x2 => match recv_pos ms pos (S (S (List.length done))) with KOk l => KOk (x2 :: l) | e => e end
+                        | RViol => KViol | RAbort => KAbort end).
+      { cbn [recv_pos]. change posarg_full_cmp with SGe. cbn [scmp_eval].
+        replace (Z.of_nat (S (List.length done))) with (zlen (done ++ [x])) by (unfold zlen; rewrite LA; reflexivity). reflexivity. }
+      rewrite RP. clear RP.
+      destruct (Z.geb_spec (zlen (done ++ [x])) (zlen (ms_args ms))) as [G2|G2]; [reflexivity|].
+      replace (Z.to_nat (zlen (done ++ [x]))) with (S (List.length done)) by (unfold zlen; rewrite LA, Nat2Z.id; reflexivity).
+      destruct (nth_error (ms_args ms) (S (List.length done))) as [sp|] eqn:NE;
+        [|apply nth_error_None in NE; unfold zlen in G2; rewrite LA in G2; lia].
+      cbn [au_take]. change au_asserts_accept with true. cbn [negb andb option_map].
+      rewrite (IH (done ++ [x]) (Some (a_ctr sp)) na).
+      * rewrite LA. cbn [recv_pos]. change posarg_full_cmp with SGe. cbn [scmp_eval].
+        replace (Z.of_nat (S (List.length done))) with (zlen (done ++ [x])) by (unfold zlen; rewrite LA; reflexivity).
+        destruct (Z.geb_spec (zlen (done ++ [x])) (zlen (ms_args ms))) as [G3|G3]; [lia|].
+        rewrite NE. cbn [option_map].
+        destruct (recvw (Some (a_ctr sp)) w2) as [x2| |]; try reflexivity.
+        destruct (recv_pos ms pos (S (S (List.length done)))) as [l| |]; try reflexivity.
+        rewrite <- app_assoc. reflexivity.
+      * rewrite ZA, zlen_cons. lia.
+      * intros _. rewrite LA, NE. split; [reflexivity|]. apply nth_error_Some. rewrite NE. discriminate.
+Qed.
+
+Theorem recv_arguments_refines ms pos kwsb :
+  recv_arguments ms (enc_args pos kwsb) = recv_call ms pos (code_kws kwsb).
+Proof.
+  unfold recv_arguments, enc_args, recv_call. cbn [au_run]. unfold au_child, au_stage, au_init.
+  cbn [au_numargs au_args au_argname au_kwargs au_ctr]. rewrite Z.eqb_refl. cbn [negb].
+  change au_count_zero_skips with true. cbn [andb]. change au_first_index with 0.
+  assert (K : forall c, (pos <> [] -> c = option_map a_ctr (nth_error (ms_args ms) 0%nat) /\ (0 < List.length (ms_args ms))%nat) ->
+    au_run ms (aust (zlen pos) [] [] None c) (pos ++ enc_kws kwsb) =
+    match recv_pos ms pos 0 with
+    | KOk a => match recv_kw ms (firstn (List.length pos) (names ms)) (code_kws kwsb) with
+               | KwOk kw => doCall ms a kw | KwViol => CViol | KwAbort => CAbort end
+    | KViol => CViol | KAbort => CAbort
+    end).
+  { intros c Hc. rewrite (pos_phase ms (enc_kws kwsb) pos [] c (zlen pos)); [|unfold zlen; cbn [List.length]; lia|exact Hc].
+    cbn [List.length app]. destruct (recv_pos ms pos 0) as [l| |] eqn:RP; try reflexivity.
+    assert (LL : zlen pos <= zlen l).
+    { clear -RP. assert (Gen : forall pos0 i l0, recv_pos ms pos0 i = KOk l0 -> List.length l0 = List.length pos0).
+      { induction pos0 as [|w pos0 IH]; intros i l0 E; cbn [recv_pos] in E; [inversion E; reflexivity|].
+        destruct (scmp_eval posarg_full_cmp (Z.of_nat i) (zlen (ms_args ms))); [discriminate|].
+        destruct (recvw _ w); try discriminate. destruct (recv_pos ms pos0 (S i)) as [l'| |] eqn:R; try discriminate.
+        inversion E; subst. cbn [List.length]. f_equal. eapply IH. exact R. }
+      unfold zlen. rewrite (Gen _ _ _ RP). lia. }
+    rewrite (kw_phase ms kwsb (zlen pos) l [] LL). cbn [map app]. rewrite app_nil_r. unfold zlen at 1. rewrite Nat2Z.id.
+    destruct (recv_kw ms _ (code_kws kwsb)); reflexivity. }
+  destruct pos as [|w pos].
+  - change (zlen []) with 0. cbn [Z.eqb]. apply (K None). intros C. contradiction C. reflexivity.
+  - assert (NZ : (zlen (w :: pos) =? 0) = false).
+    { apply Z.eqb_neq. rewrite zlen_cons. pose proof (zlen_nonneg pos). lia. }
+    rewrite NZ. unfold getPositionalArgConstraint. change posarg_full_cmp with SGe. cbn [scmp_eval].
+    destruct (Z.geb_spec 0 (zlen (ms_args ms))) as [G|G].
+    + cbn [au_take recv_pos]. change posarg_full_cmp with SGe. cbn [scmp_eval].
+      destruct (Z.geb_spec (Z.of_nat 0) (zlen (ms_args ms))) as [G'|G']; [reflexivity|cbn in G'; lia].
+    + change (Z.to_nat 0) with 0%nat.
+      destruct (nth_error (ms_args ms) 0%nat) as [sp|] eqn:NE; [|apply nth_error_None in NE; unfold zlen in G; lia].
+      cbn [au_take]. change au_asserts_accept with true. cbn [negb andb].
+      apply (K (Some (a_ctr sp))). intros _. split; [try rewrite NE; reflexivity|]. unfold zlen in G. lia.
+Qed.
+
 Definition voc1 := vocab_table 1.
+
+(* the honest sender's call as the receiver's machine sees it: count token, positional trees, (name, tree) pairs *)
+Corollary c12_call_stream : forall voc ms a kw, ms_wf ms -> args_guarded ms a kw ->
+  forall p k kb, send_call voc ms a kw = Some (p, k) -> code_kws kb = k ->
+  recv_arguments ms (enc_args p kb) = CInvoke a kw.
+Proof. intros voc ms a kw W G p k kb S <-. rewrite recv_arguments_refines. eapply c12_call; eassumption. Qed.
+
+(* names 'a' 'b' 'c' 'z' as the model's identifiers *)
+Definition nA := name_code [97].  Definition nB := name_code [98].  Definition nC := name_code [99].  Definition nZ := name_code [122].
+
+Definition ms3 (ign acc : bool) : mschema :=
+  {| ms_args := [{| a_name := nA; a_ctr := CInt (Some 1024); a_opt := false |};
+                 {| a_name := nB; a_ctr := CList (CBytes (Some 4) 0) (Some 2) 0; a_opt := true |};
+                 {| a_name := nC; a_ctr := CText None 0; a_opt := true |}];
+     ms_resp := Some (CTuple [CInt (Some (-1)); CBool None]); ms_ignore := ign; ms_accept := acc |}.
+
+Definition i5 := WInt 129 5 5.
+Definition kname (b : Z) := WStr false 1 [b].
+
+(* hostile counts and stage confusion: every line is a stream no honest sender emits *)
+Example hostile_counts :
+  (* count 2, one value, CLOSE: "'arguments' sequence ended too early" -- connection lost *)
+  recv_arguments (ms3 false false) [WInt 129 2 2; i5] = CAbort /\
+  (* count 0, then a value where a keyword NAME is expected *)
+  recv_arguments (ms3 false false) [WInt 129 0 0; i5] = CAbort /\
+  (* count 4 for a method of three arguments: refused when the third value has arrived, before the fourth *)
+  recv_arguments (ms3 false false) [WInt 129 4 4; i5; WOpen OtList []; slice [] (OText [120])] = CViol /\
+  (* count 1 but two positional-looking values: the second is taken for a keyword name *)
+  recv_arguments (ms3 false false) [WInt 129 1 1; i5; WOpen OtList []] = CAbort /\
+  (* the count is not an INT token / is missing *)
+  recv_arguments (ms3 false false) [WInt 131 1 (-1); i5] = CAbort /\ recv_arguments (ms3 false false) [] = CAbort /\
+  (* count 0 and the first argument by keyword, a second keyword naming it again *)
+  recv_arguments (ms3 false false) [WInt 129 0 0; kname 97; i5; kname 97; i5] = CViol /\
+  (* a keyword that names an argument the count already covered *)
+  recv_arguments (ms3 false false) [WInt 129 1 1; i5; kname 97; i5] = CViol /\
+  (* a name without its value *)
+  recv_arguments (ms3 false false) [WInt 129 1 1; i5; kname 98] = CAbort /\
+  (* a VOCAB token as keyword name is a name like any other (here: unknown) *)
+  recv_arguments (ms3 false false) [WInt 129 1 1; i5; WStr true 4 [108; 105; 115; 116]; i5] = CViol /\
+  (* and the conforming ones *)
+  recv_arguments (ms3 false false) [WInt 129 1 1; i5; kname 99; slice [] (OText [120])] = CInvoke [OInt 5] [(nC, OText [120])] /\
+  recv_arguments (ms3 false false) [WInt 129 0 0; kname 98; WOpen OtList []; kname 97; i5] = CInvoke [] [(nB, OList []); (nA, OInt 5)].
+Proof. vm_compute. repeat split; reflexivity. Qed.
+
+(* "a non-conforming message makes that one call fail with a Violation": FALSE under the two unknown-argument flags.
+   __ignoreUnknown__: an unknown keyword NAME trips `assert accept` in ArgumentUnslicer.receiveChild: connection lost.
+   __acceptUnknown__: the value is received unconstrained, then checkAllArgs calls None.checkObject: the call fails with an
+   AttributeError (not a Violation).  In both cases the method body does not run (unknown_flags_never_accept). *)
+Theorem unknown_flags_refuted :
+  recv_arguments (ms3 true false) [WInt 129 1 1; i5; kname 122; i5] = CAbort /\
+  recv_arguments (ms3 false true) [WInt 129 1 1; i5; kname 122; i5] = CFail /\
+  checkAllArgs (ms3 true false) [OInt 5] [(nZ, OInt 5)] = Exc "AttributeError" /\
+  checkAllArgs (ms3 false true) [OInt 5] [(nZ, OInt 5)] = Exc "AttributeError" /\
+  checkAllArgs (ms3 false false) [OInt 5] [(nZ, OInt 5)] = Exc "Violation" /\
+  recv_arguments (ms3 true true) [WInt 129 1 1; i5] = CInvoke [OInt 5] [].
+Proof. vm_compute. repeat split; reflexivity. Qed.
+
+Example c12_call_nonvacuous :
+  let a := [OInt (2 ^ 40)] in
+  let kw := [(nC, OText [8364]); (nB, OList [OBytes [108; 105; 115; 116]; OBytes []])] in
+  let kb := [([99], slice voc1 (OText [8364])); ([98], slice voc1 (OList [OBytes [108; 105; 115; 116]; OBytes []]))] in
+  ms_wf (ms3 false true) /\ args_guarded (ms3 false true) a kw /\
+  send_call voc1 (ms3 false true) a kw = Some (map (slice voc1) a, code_kws kb) /\
+  recv_arguments (ms3 false true) (enc_args (map (slice voc1) a) kb) = CInvoke a kw.
+Proof.
+  cbv zeta. split; [|split; [|split]].
+  - split; [|intros sp [<-|[<-|[<-|[]]]]; reflexivity].
+    cbn. repeat constructor; cbn; intros H; repeat destruct H as [H|H]; try discriminate H; exact H.
+  - split.
+    + intros [|[|[|i]]] sp v E1 E2; cbn in E1, E2; try discriminate; try (destruct i; discriminate).
+      inversion E1; inversion E2; subst. vm_compute. auto.
+    + intros n v sp [H|[H|[]]] L; inversion H; subst; vm_compute in L; inversion L; subst; vm_compute; auto.
+  - vm_compute. reflexivity.
+  - vm_compute. reflexivity.
+Qed.
+
+Example c12_result_nonvacuous :
+  let o := OTuple [OInt (- 2 ^ 31); OBool false] in
+  send_answer voc1 (ms3 false false) o = Some (slice voc1 o) /\
+  recv_answer (ms_resp (ms3 false false)) (slice voc1 o) = Callback o /\
+  send_answer voc1 (ms3 false false) (OTuple [OInt (2 ^ 31); OBool false]) = None.
+Proof. vm_compute. repeat split; reflexivity. Qed.
+
+
 
 Example c12_main_nonvacuous :
   let c := CTuple [CInt (Some (-1)); CInt (Some 4); CList (CText (Some 2) 0) (Some 2) 1; CDict (CBytes (Some 1) 0) (CSet (CBool None) (Some 1) None) (Some 1);
@@ -1018,3 +1411,124 @@ Theorem result_refuted_open_reference :
   checkObject c (OList [OPending 0; OList [OInt 1; OInt 2]]) = false /\
   recv_call (ms1 c) [w] [] = CViol.
 Proof. vm_compute. repeat split; reflexivity. Qed.
+
+(* ------------------------------------------------------------------ C02, sentence 3, positively *)
+Definition nonstrict_leaf (c : ctr) : bool := match c with CInt _ | CNumber _ | CBytes _ _ => true | _ => false end.
+
+Lemma checkToken_base_nonstrict t tb sz : checkToken_base t false tb sz <> TBanana.
+Proof.
+  unfold checkToken_base. destruct (assoc tb t) as [[l|]|]; try discriminate.
+  destruct ((negb token_limit_zero_unlimited || negb (l =? 0)) && scmp_eval token_size_cmp sz l); discriminate.
+Qed.
+
+Lemma leaf_open_refused c : nonstrict_leaf c = true -> slot_open (Some c) = TViol.
+Proof.
+  destruct c; try discriminate; intros _; cbn [slot_open taste taster_of strict_of].
+  - change strict_Int with false. destruct mb as [[|p|p]|]; try reflexivity. destruct p; reflexivity.
+  - change strict_Number with false. destruct mb as [[|p|p]|]; try reflexivity. destruct p; reflexivity.
+  - change strict_Bytes with false. reflexivity.
+Qed.
+
+Lemma leaf_never_aborts c w : nonstrict_leaf c = true -> recvw (Some c) w <> RAbort.
+Proof.
+  intros L. pose proof (leaf_open_refused c L) as O.
+  destruct w; cbn [recvw]; try (rewrite O; discriminate).
+  - unfold slot_token. destruct c; try discriminate L; cbn [taste taster_of strict_of];
+      [change strict_Int with false|change strict_Number with false|change strict_Bytes with false];
+      match goal with |- of_tv ?t _ <> _ => pose proof (checkToken_base_nonstrict _ _ _ : t <> TBanana) as N; destruct t; try discriminate; contradiction end.
+  - unfold slot_token. destruct c; try discriminate L; cbn [taste taster_of strict_of];
+      [change strict_Int with false|change strict_Number with false|change strict_Bytes with false];
+      match goal with |- of_tv ?t _ <> _ => pose proof (checkToken_base_nonstrict _ _ _ : t <> TBanana) as N; destruct t; try discriminate; contradiction end.
+  - unfold slot_token. destruct c; try discriminate L; cbn [taste taster_of strict_of];
+      [change strict_Int with false|change strict_Number with false|change strict_Bytes with false];
+      match goal with |- of_tv ?t _ <> _ => pose proof (checkToken_base_nonstrict _ _ _ : t <> TBanana) as N; destruct t; try discriminate; contradiction end.
+Qed.
+
+Definition leaf_schema (ms : mschema) : Prop :=
+  ms_ignore ms = false /\ ms_accept ms = false /\ forall sp, In sp (ms_args ms) -> nonstrict_leaf (a_ctr sp) = true.
+
+Lemma recv_pos_no_abort ms : (forall sp, In sp (ms_args ms) -> nonstrict_leaf (a_ctr sp) = true) ->
+  forall pos i, recv_pos ms pos i <> KAbort.
+Proof.
+  intros H. induction pos as [|w pos IH]; intros i; cbn [recv_pos]; [discriminate|].
+  change posarg_full_cmp with SGe. cbn [scmp_eval].
+  destruct (Z.geb_spec (Z.of_nat i) (zlen (ms_args ms))) as [G|G]; [discriminate|].
+  destruct (nth_error (ms_args ms) i) as [sp|] eqn:N; [|apply nth_error_None in N; unfold zlen in G; lia].
+  cbn [option_map]. pose proof (leaf_never_aborts (a_ctr sp) w (H sp (nth_error_In _ _ N))) as NA.
+  destruct (recvw (Some (a_ctr sp)) w); try discriminate; [|contradiction].
+  specialize (IH (S i)). destruct (recv_pos ms pos (S i)); try discriminate. contradiction.
+Qed.
+
+Lemma recv_kw_no_abort ms : ms_ignore ms = false -> ms_accept ms = false ->
+  (forall sp, In sp (ms_args ms) -> nonstrict_leaf (a_ctr sp) = true) -> forall kws prev, recv_kw ms prev kws <> KwAbort.
+Proof.
+  intros Hi Ha H. induction kws as [|[n w] kws IH]; intros prev; cbn [recv_kw]; [discriminate|].
+  unfold getKeywordArgConstraint. destruct (memZ n prev); [discriminate|].
+  destruct (lookup n (ms_args ms)) as [sp|] eqn:L.
+  - change au_asserts_accept with true. cbn [negb andb]. apply lookup_In in L as [L1 _].
+    pose proof (leaf_never_aborts (a_ctr sp) w (H sp L1)) as NA.
+    destruct (recvw (Some (a_ctr sp)) w); try discriminate; [|contradiction].
+    specialize (IH (prev ++ [n])). destruct (recv_kw ms (prev ++ [n]) kws); try discriminate. contradiction.
+  - rewrite Hi, Ha. discriminate.
+Qed.
+
+Lemma check_each_violation ms : ms_ignore ms = false -> ms_accept ms = false ->
+  forall l e, check_each ms l = Exc e -> e = "Violation"%string.
+Proof.
+  intros Hi Ha. induction l as [|[n v] l IH]; intros e; cbn [check_each]; [discriminate|].
+  unfold getKeywordArgConstraint. cbn [memZ existsb]. destruct (lookup n (ms_args ms)) as [sp|].
+  - destruct (checkObject (a_ctr sp) v); [apply IH|intros E; inversion E; reflexivity].
+  - rewrite Hi, Ha. intros E; inversion E; reflexivity.
+Qed.
+
+Lemma checkAllArgs_violation ms a kw e : ms_ignore ms = false -> ms_accept ms = false ->
+  checkAllArgs ms a kw = Exc e -> e = "Violation"%string.
+Proof.
+  intros Hi Ha. unfold checkAllArgs. destruct (scmp_eval args_count_cmp (zlen a) (zlen (ms_args ms))); [intros E; inversion E; reflexivity|].
+  destruct (add_kwargs (combine (names ms) a) kw) as [l|]; [|intros E; inversion E; reflexivity].
+  destruct (check_each ms l) as [[]|e'] eqn:E1.
+  - destruct (negb (required_ok ms (map fst l))); intros E; inversion E; reflexivity.
+  - intros E; inversion E; subst. eapply check_each_violation; eassumption.
+Qed.
+
+(* "a non-conforming message makes that one call fail with a Violation", POSITIVELY, where it holds: for method schemas
+   whose arguments are declared with the token-level constraints that are not strictTaster (Int / Number / ByteString, any
+   bounds) and without the unknown-argument flags, EVERY counted stream -- whatever wire trees stand in the argument
+   slots: wrong types, oversized tokens, containers, forged references, unknown / duplicate / missing names -- either
+   runs the method with arguments that pass checkAllArgs or fails exactly this call with a Violation: the connection is
+   never lost and the failure is never another exception.  The proof goes through the token-level model (taster
+   tables of the three classes, their strictTaster flags, Constraint.checkToken, the OPEN refusal), not through _doCall. *)
+Theorem one_call_violation ms pos kws : leaf_schema ms ->
+  recv_call ms pos kws = CViol \/ exists a kw, recv_call ms pos kws = CInvoke a kw /\ checkAllArgs ms a kw = Ok tt.
+Proof.
+  intros (Hi & Ha & H). unfold recv_call.
+  destruct (recv_pos ms pos 0) as [a| |] eqn:RP; [|left; reflexivity|exfalso; eapply recv_pos_no_abort; eassumption].
+  destruct (recv_kw ms (firstn (List.length pos) (names ms)) kws) as [kw| |] eqn:RK;
+    [|left; reflexivity|exfalso; eapply recv_kw_no_abort; eassumption].
+  unfold doCall. change doCall_shape with CheckedBeforeCall. cbv iota.
+  destruct (checkAllArgs ms a kw) as [[]|e] eqn:E.
+  - right. exists a, kw. auto.
+  - left. rewrite (checkAllArgs_violation ms a kw e Hi Ha E). reflexivity.
+Qed.
+
+Corollary one_call_violation_stream ms pos kwsb : leaf_schema ms ->
+  recv_arguments ms (enc_args pos kwsb) = CViol \/
+  exists a kw, recv_arguments ms (enc_args pos kwsb) = CInvoke a kw /\ checkAllArgs ms a kw = Ok tt.
+Proof. intros L. rewrite recv_arguments_refines. apply one_call_violation. exact L. Qed.
+
+Definition msL : mschema :=
+  mkms [{| a_name := nA; a_ctr := CInt (Some (-1)); a_opt := false |}; {| a_name := nB; a_ctr := CBytes (Some 3) 1; a_opt := true |}] None.
+
+Example one_call_violation_nonvacuous :
+  leaf_schema msL /\
+  recv_call msL [WInt 129 5 5] [(nB, WStr false 2 [65; 66])] = CInvoke [OInt 5] [(nB, OBytes [65; 66])] /\
+  recv_call msL [WInt 133 5 (2 ^ 39)] [] = CViol /\                       (* LONGINT under the 32-bit constraint *)
+  recv_call msL [WOpen OtList [WInt 129 5 5]] [] = CViol /\               (* a container where an int is declared *)
+  recv_call msL [WInt 129 5 5] [(nB, WStr false 4 [65; 66; 67; 68])] = CViol /\   (* 4 bytes under maxLength 3 *)
+  recv_call msL [WInt 129 5 5] [(nB, WStr false 0 [])] = CViol /\         (* minLength 1: only checkAllArgs sees it *)
+  recv_call msL [WInt 129 5 5; WRef (OList [])] [] = CViol /\             (* a forged reference *)
+  recv_call msL [] [(nB, WStr false 1 [65])] = CViol.                     (* required argument missing *)
+Proof.
+  split; [|vm_compute; repeat split; reflexivity].
+  split; [reflexivity|]. split; [reflexivity|]. intros sp [<-|[<-|[]]]; reflexivity.
+Qed.
